@@ -2,6 +2,7 @@
 // One nesting level of the token stream, as StepParser hands it out: comments are skipped (proved in unit STEP), a
 // block opener (`{` `[` `(` or a function token) is one item whose content is the nested level `inner` -- cssparser's
 // Parser::next* steps over the whole block, parse_nested_block parses exactly that content (A5).
+pub use core::ops::Range;
 pub struct BItem { pub tok: TokV, pub pos: Position, pub inner: Seq<BItem> }
 #[derive(Debug)]
 pub struct BasicParseError<'i> { pub _s: &'i str }
@@ -45,6 +46,39 @@ impl<'i, 't, 'a> StepParser<'i, 't, 'a> {
                 &&& j >= old(self).items@.len() ==> r.is_err() && final(self).cur@ == old(self).items@.len()
             }),
     { unimplemented!() }
+    /// StepParser::peek (proved in unit STEP): skip whitespace, then look at the next non-comment token without consuming it
+    #[verifier::external_body]
+    fn peek(&mut self) -> (r: Result<StepToken<'i>, BasicParseError<'i>>)
+        requires old(self).wf(),
+        ensures final(self).wf(), final(self).items@ == old(self).items@,
+            final(self).cur@ == first_non_ws(old(self).items@, old(self).cur@),
+            final(self).cur@ < old(self).items@.len() ==> r.is_ok() && tokv(r.unwrap().token) == old(self).items@[final(self).cur@].tok
+                    && r.unwrap().position == old(self).items@[final(self).cur@].pos,
+            final(self).cur@ >= old(self).items@.len() ==> r.is_err(),
+    { unimplemented!() }
+    /// StepParser::position (proved in unit STEP): where the next token starts
+    #[verifier::external_body]
+    fn position(&self) -> (r: Position)
+        ensures self.cur@ < self.items@.len() ==> r == self.items@[self.cur@].pos,
+    { unimplemented!() }
+    /// cssparser::Parser::new_error_for_next_token (through Deref): looks at the next token and puts the cursor back
+    #[verifier::external_body]
+    fn new_error_for_next_token(&mut self) -> (r: VxParseErr)
+        ensures *final(self) == *old(self),
+    { unimplemented!() }
+}
+pub struct VxParseErr { pub _x: u8 }
+impl<'i> CowRcStr<'i> {
+    /// str::to_ascii_lowercase through Deref
+    #[verifier::external_body]
+    fn to_ascii_lowercase(&self) -> (r: String)
+        ensures r@ == lower(self@),
+    { unimplemented!() }
+    /// str::eq_ignore_ascii_case through Deref
+    #[verifier::external_body]
+    fn eq_ignore_ascii_case(&self, other: &str) -> (r: bool)
+        ensures r == (lower(self@) == lower(other@)),
+    { unimplemented!() }
 }
 pub open spec fn is_sign(t: TokV) -> bool { t == TokV::Delim('+') || t == TokV::Delim('-') }
 /// `let _ = input.try_parse(|input| { <slice convert_rpx_in_block#lookahead>; Err(()) })`: the slice's contract, and the
@@ -70,6 +104,8 @@ pub enum Ev {
     SelBlock { inner: Seq<BItem> },
     /// convert_rpx_in_block over the content of the block just opened
     ValBlock { inner: Seq<BItem>, in_calc: Option<bool> },
+    /// add_warning
+    Warn { kind: ParseErrorKind, start: Position, end: Position },
 }
 pub open spec fn is_opener(t: TokV) -> bool { t is CurlyBracketBlock || t is SquareBracketBlock || t is ParenthesisBlock || t is Function }
 pub open spec fn closer_of(t: TokV) -> TokV {
@@ -86,6 +122,10 @@ impl StyleSheetTransformer {
     fn append_token_space_preserved(&mut self, token: StepToken, _input: &mut StepParser, src: Option<Token>)
         ensures final(self).log@ == old(self).log@.push(Ev::Tok { tok: tokv(token.token), pos: token.position, keep_space: true }),
             *final(_input) == *old(_input),
+    { unimplemented!() }
+    #[verifier::external_body]
+    fn add_warning(&mut self, kind: ParseErrorKind, location: Range<Position>)
+        ensures final(self).log@ == old(self).log@.push(Ev::Warn { kind, start: location.start, end: location.end }),
     { unimplemented!() }
     /// proved in unit CSSTR
     #[verifier::external_body]
